@@ -203,3 +203,9 @@ package driver
 //@   ensures call_tree: cfg.CallTree && !cfg.Trim
 //@   ensures default_by_file: old(cfg.Granularity) == "" ==> cfg.Granularity == "filefunctions"
 //@   ensures given_kept: old(cfg.Granularity) != "" ==> cfg.Granularity == old(cfg.Granularity)
+
+// ---- C19 (strengthened after seeded change empty-url-param-applied-instead-of-skipped): applyURL assigns a field
+// only from a parameter that is present with a non-empty value; an empty value means "not given" and leaves the
+// field as it was (so `?f=` cannot clear or fail a setting).
+//@ func config.applyURL nosafety
+//@   callsite config.set nonempty_only: $arg0 == cfg && $arg2 != ""
